@@ -272,6 +272,39 @@ func TestC15(t *testing.T) {
 				}
 			}
 		}
+		// base-type bytes with the reserved bits 5 and 6 set, on every entry
+		// at its profile size: the entry's own number with reserved bits, and
+		// the string number with reserved bits. Whatever the validator lets
+		// through, the store that follows must fit the struct field.
+		for _, e := range entries {
+			bt, ok := fitmodel.Base(e.Base)
+			if !ok {
+				continue
+			}
+			size := bt.Size * int(e.Length)
+			if bt.String {
+				size = int(e.Length)
+			}
+			if size > 255 || size == 0 {
+				continue
+			}
+			ft := fit.FileTypeActivity
+			if h, ok := host[uint16(e.Mesg)]; ok {
+				ft = h
+			}
+			for _, b := range []byte{e.Base | 0x20, e.Base | 0x40, e.Base | 0x60, 0x27, 0x47, 0x67, 0xA7} {
+				s := &fitmodel.Stream{HeaderSize: 12, Proto: 0x20, Recs: []fitmodel.Rec{
+					{IsDef: true, Global: 0, Fields: []fitmodel.FieldDef{{Num: 0, Size: 1, Base: 0}}}, {Raw: []byte{byte(ft)}},
+					{IsDef: true, Local: 1, Global: uint16(e.Mesg), Fields: []fitmodel.FieldDef{{Num: e.Num, Size: byte(size), Base: b}}},
+					{Local: 1, Raw: bytes.Repeat([]byte{0x41}, size)},
+				}}
+				dyn++
+				if p := oracle.Catch(func() { fit.Decode(bytes.NewReader(s.Bytes())) }); p != nil {
+					fail(int(e.Mesg), int(e.Num), "decode", fmt.Sprintf("a definition with base-type byte %#02x (reserved bits set) and size %d panics: %v", b, size, p))
+				}
+			}
+		}
+
 		// look-alike redefinitions: the definition of entry (m, f) followed,
 		// on the same local type, by the byte-identical field list for up to
 		// three other messages in which field number f has another base
